@@ -1,6 +1,7 @@
 package main
 
 import (
+	"strings"
 	"fmt"
 	"go/token"
 	"go/types"
@@ -686,24 +687,8 @@ func ruleDelayWriter(w *World, r *Report, pfx string) {
 	if cont == nil {
 		return
 	}
-	// the writer variable: the phi passed to render
 	render := w.renderFn()
-	var wPhi *ssa.Phi
-	for _, b := range cont.Blocks {
-		for _, in := range b.Instrs {
-			if c, ok := in.(*ssa.Call); ok && c.Call.StaticCallee() == render && len(c.Call.Args) == 2 {
-				if phi, ok := c.Call.Args[1].(*ssa.Phi); ok {
-					wPhi = phi
-				}
-			}
-		}
-	}
-	if wPhi == nil {
-		r.Undecided(rule, "container loop writer", w.pos(cont.Pos()), "the writer passed to render is not a loop-carried variable")
-		return
-	}
-	realW := cont.Params[len(cont.Params)-1] // cw parameter
-	bad := ""
+	realW := ssa.Value(cont.Params[len(cont.Params)-1]) // cw parameter
 	isDiscard := func(v ssa.Value) bool {
 		c, ok := v.(*ssa.Call)
 		if !ok || c.Call.StaticCallee() == nil || c.Call.StaticCallee().Name() != "New" || c.Call.StaticCallee().Pkg != w.Cw {
@@ -716,65 +701,103 @@ func ruleDelayWriter(w *World, r *Report, pfx string) {
 		g, ok := ld.X.(*ssa.Global)
 		return ok && g.Name() == "Discard"
 	}
-	var delaySel *ssa.Select
-	delayState := -1
+	var delayArm *ssa.BasicBlock
 	for _, op := range w.Comm().byFn[cont] {
 		if op.Kind == "select" {
 			for i, s := range op.States {
 				if s.Dir == types.RecvOnly && s.Class.has("pState.delayRC") {
-					delaySel = op.Instr.(*ssa.Select)
-					delayState = i
+					delayArm = selArm(op.Instr.(*ssa.Select), i)
 				}
 			}
 		}
 	}
-	var cwPhi *ssa.Phi // the pending real writer
-	for i, e := range wPhi.Edges {
-		pred := wPhi.Block().Preds[i]
-		switch {
-		case e == ssa.Value(wPhi):
-		case isDiscard(e):
-			// must come from the delayRC != nil branch
-			if !edgeUnderNilTest(pred, "delayRC", false) {
-				bad = "the discarding writer is installed on a path that does not carry delayRC != nil"
+	// On every path of the container loop (private helpers inlined; the loop unrolled by the
+	// path engine: entry, one arm, a second arm), the writer handed to render or to an
+	// intercepted write is the discarding one only while delayRC != nil and the delay arm has not
+	// run, and the real one only when no delay was configured or after the delay arm.
+	bad := ""
+	nRender, nIO := 0, 0
+	writerUses := func(p *Path, ev Event) (Val, string, bool) {
+		c, ok := ev.In.(*ssa.Call)
+		if !ok {
+			return Val{}, "", false
+		}
+		if c.Call.StaticCallee() == render && len(c.Call.Args) == 2 {
+			return p.val(ev, c.Call.Args[1]), "render", true
+		}
+		if c.Call.StaticCallee() == nil && !c.Call.IsInvoke() && len(c.Call.Args) == 1 {
+			if mi, ok := c.Call.Args[0].(*ssa.MakeInterface); ok && strings.HasSuffix(mi.X.Type().String(), "cwriter.Writer") {
+				return p.val(ev, mi.X), "io", true
 			}
-		case e == ssa.Value(realW):
-			if !edgeUnderNilTest(pred, "delayRC", true) {
-				bad = "the real writer is installed at start although a render delay is configured: frames are written before the delay ends"
+		}
+		return Val{}, "", false
+	}
+	_, over := w.enumPaths(cont, pathOpts{InlineDepth: 3, Inline: w.helperInline(cont), MaxPaths: 400000, Unroll: 1, EmitCut: true}, func(p *Path) {
+		if bad != "" {
+			return
+		}
+		armAt := -1
+		// the delay arm cannot fire again once the arm has nil-ed the channel field it receives from
+		disabled := false
+		for _, ev := range p.Events {
+			if f, v, ok := p.storeField(ev); ok && f.Owner == tPState && f.Name == "delayRC" {
+				disabled = isNilConst(v.V)
 			}
-		default:
-			phi, ok := e.(*ssa.Phi)
-			if ok && phi.Block() == wPhi.Block() {
-				cwPhi = phi
-				// must come from the arm that received from delayRC
-				if delaySel == nil || selArm(delaySel, delayState) == nil || !(selArm(delaySel, delayState) == pred || selArm(delaySel, delayState).Dominates(pred)) {
-					bad = "the pending real writer is installed outside the arm that received from the render-delay channel"
+			if ev.F.Parent == nil && delayArm != nil && ev.In.Block() == delayArm {
+				first := true
+				for _, in := range delayArm.Instrs {
+					if _, isDbg := in.(*ssa.DebugRef); isDbg {
+						continue
+					}
+					first = in == ev.In
+					break
 				}
+				if first && (disabled || p.hasCmp(ev.Idx, token.EQL, loadOf(tPState, "delayRC"), isNilVal)) {
+					return // infeasible: receive from a nil channel
+				}
+			}
+		}
+		for _, ev := range p.Events {
+			if ev.F.Parent == nil && delayArm != nil && ev.In.Block() == delayArm && armAt < 0 {
+				armAt = ev.Idx
+			}
+			wv, kind, ok := writerUses(p, ev)
+			if !ok {
+				continue
+			}
+			if kind == "render" {
+				nRender++
 			} else {
-				bad = "the writer variable takes an unexpected value"
+				nIO++
 			}
-		}
-	}
-	if cwPhi != nil {
-		for _, e := range cwPhi.Edges {
-			if e != ssa.Value(cwPhi) && e != ssa.Value(realW) && !isNilConst(e) {
-				bad = "the pending writer is not the container's real writer"
-			}
-		}
-	}
-	r.Check(bad == "", rule, "container loop writer", w.pos(wPhi.Pos()), "discarding writer while the delay is pending; real writer only at init without delay or after the delay signal", bad)
-	// the writer handed to intercepted writes is the same variable
-	okIO := false
-	for _, b := range cont.Blocks {
-		for _, in := range b.Instrs {
-			if c, ok := in.(*ssa.Call); ok && c.Call.StaticCallee() == nil && len(c.Call.Args) == 1 {
-				if mi, ok := c.Call.Args[0].(*ssa.MakeInterface); ok && mi.X == ssa.Value(wPhi) {
-					okIO = true
+			delayed := p.hasCmp(ev.Idx, token.NEQ, loadOf(tPState, "delayRC"), isNilVal)
+			noDelay := p.hasCmp(ev.Idx, token.EQL, loadOf(tPState, "delayRC"), isNilVal)
+			afterArm := armAt >= 0 && armAt < ev.Idx
+			switch {
+			case isDiscard(wv.V):
+				if !delayed {
+					bad = "the discarding writer is installed on a path that does not carry delayRC != nil"
+				} else if afterArm {
+					bad = "the discarding writer is still in use after the render-delay channel fired (" + w.instrPos(ev.In) + ")"
 				}
+			case wv.V == realW:
+				if !(noDelay || afterArm) {
+					bad = "the real writer is used (" + w.instrPos(ev.In) + ") although a render delay is configured and has not fired: frames are written before the delay ends"
+				}
+			default:
+				bad = "the writer handed to " + kind + " (" + w.instrPos(ev.In) + ") is neither the discarding writer nor the container's real writer: " + describeVal(wv)
 			}
 		}
+	})
+	if over {
+		r.Undecided(rule, "container loop writer", w.pos(cont.Pos()), "path cap")
+		return
 	}
-	r.Check(okIO, rule, "writer handed to intercepted writes", w.pos(cont.Pos()), "same writer variable as render's", "text written through the container goes to a different writer than the frames")
+	if delayArm == nil {
+		bad = orStr(bad, "the container loop has no arm receiving from the render-delay channel")
+	}
+	r.Check(bad == "" && nRender > 0, rule, "container loop writer", w.pos(cont.Pos()), "discarding writer while the delay is pending; real writer only at init without delay or after the delay signal", orStr(bad, "no render call on any path of the container loop"))
+	r.Check(bad == "" && nIO > 0, rule, "writer handed to intercepted writes", w.pos(cont.Pos()), "same writer discipline as render's", orStr(bad, "text written through the container does not go to the loop's writer variable"))
 }
 
 // edgeUnderNilTest: block b is (dominated by) the branch of `field == nil` (wantNil) / `!= nil`.
@@ -1224,10 +1247,12 @@ func ruleEndArm(w *World, r *Report, pfx string) {
 	// the end request carries pState.shutdownNotifier
 	cont := w.containerLoop()
 	okArg := false
-	for _, b := range cont.Blocks {
-		for _, in := range b.Instrs {
-			if c, ok := in.(*ssa.Call); ok && len(c.Call.Args) == 2 && isLoad(Val{V: c.Call.Args[1]}, tPState, "shutdownNotifier") {
-				okArg = true
+	for f := range w.unit(cont) {
+		for _, b := range f.Blocks {
+			for _, in := range b.Instrs {
+				if c, ok := in.(*ssa.Call); ok && len(c.Call.Args) == 2 && isLoad(Val{V: c.Call.Args[1]}, tPState, "shutdownNotifier") {
+					okArg = true
+				}
 			}
 		}
 	}
